@@ -185,7 +185,8 @@ struct Gen {
             case 5:
                 // avoid(known finding: task thread vs module stop): outside C04 no task is launched from a stop callback (the module goes away under it)
                 if (camp != "C04" && where.find(".stop.") != std::string::npos) { p.add(where, "src_sgn", {rmod(), (long)r.below(4), fl}); break; }
-                p.add(where, reg || r.chance(0.7) ? "src_task" : "unsrc_task", {rmod(), (long)r.below(4), (long)r.below(5) * (long)r.below(2000), (long)r.below(100), fl, bad ? 1 : 0}); break;
+                // (outside C04 a task source is not deregistered by hand either: its thread may be running - same known finding)
+                p.add(where, reg || r.chance(0.7) || camp != "C04" ? "src_task" : "unsrc_task", {rmod(), (long)r.below(4), (long)r.below(5) * (long)r.below(2000), (long)r.below(100), fl, bad ? 1 : 0}); break;
             case 6: p.add(where, reg ? "src_thresh" : "unsrc_thresh", {rmod(), bad ? 0 : (long)r.range(1, 3) * 5, bad ? 0 : (long)r.below(2) * 400000, fl}); break;
             }
             break;
